@@ -387,6 +387,24 @@ func TestVerifC19Compose(t *testing.T) {
 			}
 		}
 	}
+	// a large directory behind a mount: more entries than any table a QID mapper might want to bound (the
+	// mapper must keep every path it ever handed out: the QIDs listed must still be the ones Walk and GetAttr
+	// report after thousands of other files were seen through the same mapper).  Direct, one listing.
+	{
+		var names []string
+		for i := 0; i < 4300; i++ {
+			names = append(names, fmt.Sprintf("big%05d", i))
+		}
+		a, err := New(WithDir("mid", WithMount("deep", vh19Static(t, names))), WithFile("z", staticfs.ReadOnlyFile("z")))
+		if err != nil {
+			t.Fatal(err)
+		}
+		root, err := a.Attach()
+		if err != nil {
+			t.Fatal(err)
+		}
+		vh19Observe(t, out, 3, root, []string{"mid", "deep"}, names, false, 0, 0xffffffff)
+	}
 	vh19Qids(t, out, r)
 }
 
